@@ -55,10 +55,10 @@ theorem kfdcr_active_le : (inp.activeEdges false).length ≤ inp.base.edges.leng
 /-- with the flow attribute on every edge of the user's graph the caps do not depend on `k` -/
 theorem kfdcr_cap_attr (hattr : ∀ e ∈ inp.base.edges, ∃ q, inp.fOpt e = some q) (k : Nat) (e : Edge)
     (he : e ∈ inp.st.g.edges) :
-    kfdcCap (inp.withK k) e = if isSccEdge inp.st.g e then inp.f e else 1 := by
+    kfdcCap (inp.withK k) e = if isSccEdge inp.st.g e then (((inp.f e).floor : Int) : Rat) else 1 := by
   have hwf : STWFc inp.st := augment_wfc inp.base inp.starts inp.ends hb
   rw [kfdcCap_eq (inp.withK k) e he]
-  show (if isSccEdge inp.st.g e then (inp.fOpt e).getD ((inp.withK k).wmax false) else 1) = _
+  show (if isSccEdge inp.st.g e then ((((inp.fOpt e).getD ((inp.withK k).wmax false)).floor : Int) : Rat) else 1) = _
   cases hscc : isSccEdge inp.st.g e with
   | false => rfl
   | true =>
@@ -178,7 +178,7 @@ theorem kfdcr_range_rat (hfloat : inp.weightInt = false) (hcons : inp.cfg.constr
     intro e he
     rw [kfdcr_cap_attr inp hb hattr k e (kfdcr_active_base inp hb e he).1]
     split
-    · exact hfM e he
+    · exact Rat.le_trans (Rat.floor_le _) (hfM e he)
     · exact hM1
   have hwd : WalkDecompWithin (inp.withK I'.length) walk w := by
     refine ⟨?_, ?_, ?_, ?_, ?_, ?_, ?_⟩
